@@ -8,7 +8,8 @@
      preflight, its disabling condition, and the normal form of the callable it
      resolves to;
    of a stage:   parameter names with their types (user file types all count as
-                 "a file"), and whether it splits;
+                 "a file", struct types count with the definitions of their members),
+                 and whether it splits;
    of a pipeline: parameters, output names of file-typed outputs, the set of its
                  calls (by name), and its return bindings.
 
@@ -29,7 +30,15 @@ HasName(s, name) == \E j \in DOMAIN s : s[j].name = name
 Range(s) == {s[i] : i \in DOMAIN s}
 
 IsFileType(p, b) == b \in {"file", "path"} \/ \E i \in DOMAIN p.filetypes : p.filetypes[i] = b
-NormType(p, t) == [b |-> IF IsFileType(p, t.b) THEN "<file>" ELSE t.b, a |-> t.a, m |-> t.m, ia |-> t.ia]
+(* a struct type counts with its definition: the names and (normal) types of its members, to any
+   depth - what a stage is handed and what is kept of its outputs depends on them *)
+IsStruct(p, b) == \E i \in DOMAIN p.structs : p.structs[i].name = b
+RECURSIVE NormType(_, _), NormBase(_, _)
+NormBase(p, b) == [name |-> IF IsFileType(p, b) THEN "<file>" ELSE b,
+                   fields |-> IF IsStruct(p, b)
+                              THEN LET sd == ByName(p.structs, b) IN {<<sd.fields[i].n, NormType(p, sd.fields[i].t)>> : i \in DOMAIN sd.fields}
+                              ELSE {}]
+NormType(p, t) == [b |-> NormBase(p, t.b), a |-> t.a, m |-> t.m, ia |-> t.ia]
 NormIns(p, ps) == {<<ps[i].n, NormType(p, ps[i].t)>> : i \in DOMAIN ps}
 (* output names matter where the runtime materialises files: pipeline outputs *)
 NormOuts(p, ps, names) == {<<ps[i].n, NormType(p, ps[i].t),
